@@ -87,6 +87,9 @@ func (t *target) establish(idx int) {
 	if conn != nil {
 		t.c.ConnL, t.c.ConnP = lp, pp
 		t.c.ConnSeq, t.c.ConnAck = conn.IRS+1, conn.ISS+1
+		// unacknowledged data in flight: retransmission timers are armed while the barrage runs
+		conn.EP.Write(tcpip.SlicePayload(make([]byte, 3000)), tcpip.WriteOptions{})
+		rawpeer.Settle()
 	}
 	t.p4.Take()
 }
@@ -118,6 +121,9 @@ func (t *target) drain() {
 // probes: the stack must still answer an echo request, complete a new TCP
 // connection and deliver a UDP datagram. Returns "" or what failed.
 func (t *target) probes(idx int) string {
+	// let virtual time pass: retransmission and reassembly timers armed during the barrage fire
+	time.Sleep(1500 * time.Millisecond)
+	rawpeer.Settle()
 	t.drain()
 	t.probeN++
 	n := t.probeN
